@@ -32,10 +32,10 @@ EXTENDS VrfRtc
 
 CONSTANT Defects
 
-VARIABLES wN1, wN2, wCE
-mvars == <<cfg, up, ceOn, nin, cein, loc, vrfs, mem, wait, eor, deadline, now, wN1, wN2, wCE>>
+VARIABLES wN1, wN2, wN3, wCE
+mvars == <<cfg, up, ceOn, nin, cein, loc, vrfs, mem, wait, eor, deadline, now, wN1, wN2, wN3, wCE>>
 
-MInit(c) == PInit(c) /\ wN1 = {} /\ wN2 = {} /\ wCE = {}
+MInit(c) == PInit(c) /\ wN1 = {} /\ wN2 = {} /\ wN3 = {} /\ wCE = {}
 
 EKey(e) == <<e.rd, e.x>>
 (* apply announcements A (wire entries) and withdrawals of the keys WK to a view *)
@@ -45,15 +45,17 @@ ApplyCe(W, A, WX) == {e \in W : e.x \notin WX /\ \A a \in A : a.x # e.x} \cup A
 SameKey(S, r) == {q \in S : Key(q) = Key(r)}
 
 (* ---- route changes: O = VPN routes before, N = after; memberships / VRFs as given ---- *)
-FanN2(O, N, W) ==
-  LET A  == {n \in N \ O : n.src # "N2"}
-      WK == {Key(o) : o \in {q \in O \ N : q.src # "N2" /\ SameKey(N, q) = {}}}
+(* O, N are sets of BEST paths (one per VPN NLRI).  A new best that may not be sent to p (its own
+   route, or internal to internal) makes filterpath withdraw the old best that was sent *)
+FanPE(p, O, N, W) ==
+  LET A  == {n \in N \ O : MayAdv(p, n)}
+      WK == {Key(o) : o \in {q \in O \ N : MayAdv(p, q) /\ \A n \in SameKey(N, q) : ~MayAdv(p, n)}}
   IN Apply(W, {Wire(a) : a \in A}, WK)
 
 FanN1(O, N, M, W) ==
-  LET A  == {n \in N \ O : InterestedIn(M, n)}
-      WK == {Key(o) : o \in {q \in O \ N : /\ InterestedIn(M, q)
-                                          /\ \A n \in SameKey(N, q) : ~InterestedIn(M, n)}}
+  LET Ok(r) == MayAdv("N1", r) /\ InterestedIn(M, r)
+      A  == {n \in N \ O : Ok(n)}
+      WK == {Key(o) : o \in {q \in O \ N : Ok(q) /\ \A n \in SameKey(N, q) : ~Ok(n)}}
   IN Apply(W, {Wire(a) : a \in A}, WK)
 
 FanCE(O, N, w, W) ==
@@ -70,26 +72,28 @@ FanCE(O, N, w, W) ==
 
 (* fan-out of the change of the relations made by the current step (VpnRoutes' is the new set) *)
 Fan ==
-  /\ wN2' = IF up["N2"] /\ up'["N2"] THEN FanN2(VpnRoutes, VpnRoutes', wN2) ELSE wN2
+  /\ wN2' = IF up["N2"] /\ up'["N2"] THEN FanPE("N2", VpnRoutes, VpnRoutes', wN2) ELSE wN2
+  /\ wN3' = IF up["N3"] /\ up'["N3"] THEN FanPE("N3", VpnRoutes, VpnRoutes', wN3) ELSE wN3
   /\ wN1' = IF up["N1"] /\ up'["N1"] THEN FanN1(VpnRoutes, VpnRoutes', mem, wN1) ELSE wN1
   /\ wCE' = IF up["CE"] /\ up'["CE"] THEN FanCE(VpnRoutes, VpnRoutes', V(CeVrf), wCE) ELSE wCE
 
 (* full table transfer to N1 under the current memberships (announcements only) *)
-DumpN1(M, W) == Apply(W, {Wire(r) : r \in {q \in VpnRoutes : InterestedIn(M, q)}}, {})
+DumpN1(M, W) == Apply(W, {Wire(r) : r \in {q \in VpnRoutes : MayAdv("N1", q) /\ InterestedIn(M, q)}}, {})
 
 ---------------------------------------------------------------------------
 MUp(p) ==
   /\ PUp(p)
-  /\ IF p = "N1" THEN wN1' = {} /\ UNCHANGED <<wN2, wCE>>     \* no membership yet: nothing passes the filter
-                 ELSE wN2' = AllExport("N2") /\ UNCHANGED <<wN1, wCE>>
+  /\ CASE p = "N1" -> wN1' = {} /\ UNCHANGED <<wN2, wN3, wCE>>     \* no membership yet: nothing passes the filter
+       [] p = "N2" -> wN2' = AllExport("N2") /\ UNCHANGED <<wN1, wN3, wCE>>
+       [] p = "N3" -> wN3' = AllExport("N3") /\ UNCHANGED <<wN1, wN2, wCE>>
 MDown(p) ==
   /\ PDown(p)
-  /\ IF p = "N1" THEN UNCHANGED <<wN1, wN2, wCE>> ELSE Fan
+  /\ IF p = "N1" THEN UNCHANGED <<wN1, wN2, wN3, wCE>> ELSE Fan
 
 (* full transfer to the CE: when two imported routes share a prefix the later one in the table
    walk (unordered) wins - any one-per-prefix selection d is possible *)
 CeDumps  == {d \in SUBSET CeExport : CeOk(d)}
-MCeUp(d) == PCeUp /\ d \in CeDumps /\ wCE' = d /\ UNCHANGED <<wN1, wN2>>
+MCeUp(d) == PCeUp /\ d \in CeDumps /\ wCE' = d /\ UNCHANGED <<wN1, wN2, wN3>>
 MCeDown == PCeDown /\ Fan
 
 MVAnn(r) == PVAnn(r) /\ Fan
@@ -98,7 +102,7 @@ MCeAnn(x, v) == PCeAnn(x, v) /\ Fan
 MCeWd(x)     == PCeWd(x) /\ Fan
 MApiAdd(n, x, v) == PApiAdd(n, x, v) /\ Fan
 MApiDel(n, x)    == PApiDel(n, x) /\ Fan
-MAddVrf(w)  == PAddVrf(w) /\ UNCHANGED <<wN1, wN2, wCE>>
+MAddVrf(w)  == PAddVrf(w) /\ UNCHANGED <<wN1, wN2, wN3, wCE>>
 MDelVrf(n)  == PDelVrf(n) /\ Fan
 
 (* processRTCMembership: act only when the target becomes known / unknown *)
@@ -107,31 +111,31 @@ Carries(rt, r) == rt = "def" \/ rt \in r.rts
 MMAnn(m) ==
   /\ PMAnn(m)
   /\ wN1' = IF Known(mem, m.rt) \/ wait THEN wN1
-            ELSE Apply(wN1, {Wire(r) : r \in {q \in VpnRoutes : Carries(m.rt, q)}}, {})
-  /\ UNCHANGED <<wN2, wCE>>
+            ELSE Apply(wN1, {Wire(r) : r \in {q \in VpnRoutes : MayAdv("N1", q) /\ Carries(m.rt, q)}}, {})
+  /\ UNCHANGED <<wN2, wN3, wCE>>
 MMWd(m) ==
   /\ PMWd(m)
   /\ wN1' = IF Known(mem \ {m}, m.rt) THEN wN1
             ELSE IF m.rt = "def"
                  THEN IF "D2" \in Defects
-                      THEN Apply(wN1, {Wire(r) : r \in {q \in VpnRoutes : ~InterestedIn(mem \ {m}, q)}}, {})
+                      THEN Apply(wN1, {Wire(r) : r \in {q \in VpnRoutes : ~(MayAdv("N1", q) /\ InterestedIn(mem \ {m}, q))}}, {})
                       ELSE Apply(wN1, {}, {Key(r) : r \in {q \in VpnRoutes : ~InterestedIn(mem \ {m}, q)}})
                  ELSE IF "D1" \in Defects
                       THEN Apply(wN1, {}, {Key(r) : r \in {q \in VpnRoutes : m.rt \in q.rts}})
                       ELSE Apply(wN1, {}, {Key(r) : r \in {q \in VpnRoutes : m.rt \in q.rts /\ ~InterestedIn(mem \ {m}, q)}})
-  /\ UNCHANGED <<wN2, wCE>>
+  /\ UNCHANGED <<wN2, wN3, wCE>>
 MMEor ==
   /\ PMEor
   /\ wN1' = IF wait THEN DumpN1(mem, wN1) ELSE wN1
-  /\ UNCHANGED <<wN2, wCE>>
+  /\ UNCHANGED <<wN2, wN3, wCE>>
 MTick(d) ==
   /\ PTick(d)
   /\ wN1' = IF Expires(d) THEN DumpN1(mem, wN1) ELSE wN1
-  /\ UNCHANGED <<wN2, wCE>>
+  /\ UNCHANGED <<wN2, wN3, wCE>>
 
 ---------------------------------------------------------------------------
 (* design level: the mechanism implements the property layer *)
 D_RtcExact == up["N1"] => IF wait THEN wN1 \subseteq RtcExport("N1") ELSE wN1 = RtcExport("N1")
-D_AllExact == up["N2"] => wN2 = AllExport("N2")
+D_AllExact == (up["N2"] => wN2 = AllExport("N2")) /\ (up["N3"] => wN3 = AllExport("N3"))
 D_CeExact  == up["CE"] => CeOk(wCE)
 =============================================================================
